@@ -111,7 +111,7 @@ def key_of(c):
     return f"{c['d']}{'(forward)' if c['fwd'] else ''}|{'enum' if sh['enum'] else 'struct'}[{vs}]"
 
 
-FN = ["a", "b", "c"]    # named fields; a second pass names them like the identifiers the expansions use themselves
+FN = ["a", "b", "c"] + list("defghijklm")    # named fields; a second pass names them like the identifiers the expansions use themselves
 SAME_TYPES = False     # set per case: every field has the SAME type (a derive keyed by field type must still treat each field)
 NOT_FORWARD = False    # set per case: the scalar derive is asked for explicitly, `#[mul(not(forward))]`
 GENERIC = None         # set per case: the struct is `S<T>`, every field a `T`, instantiated with this type
@@ -261,7 +261,7 @@ def run(chk, tier, seed, replay):
     # named fields called like the expansions' own parameters / locals (`rhs`, `iter`, `lhs`): a generated `let` or
     # pattern binding of that name would capture the field instead
     global FN
-    FN = ["rhs", "iter", "lhs"]
+    FN = ["rhs", "iter", "lhs"] + list("defghijklm")
     for k, rec in list(cases.items()):
         if "|" in k.split("]")[-1]:
             continue
@@ -269,7 +269,7 @@ def run(chk, tier, seed, replay):
             k2 = k + "|internal_names"
             cases[k2] = rec
             mods.append((k2, module(rec["c"], k2, max_items)))
-    FN = ["a", "b", "c"]
+    FN = ["a", "b", "c"] + list("defghijklm")
     # generic structs `S<T>` instantiated with a type that has exactly the operators the derive documents it needs
     global GENERIC
     for k, rec in list(cases.items()):
